@@ -2,6 +2,6 @@ SPECIFICATION Spec
 CONSTANTS MaxChunks = 4
  ChunkSizes = {1, 2, 5}
  Caps = {1, 3, 100}
- Profiles = {"flush+test", "c:checked"}
+ Profiles = {"c:flush"}
 INVARIANT ExitZeroImpliesComplete
 CHECK_DEADLOCK FALSE
